@@ -327,6 +327,14 @@ def check_newton(ctx, label, S, obs, n_steps, optkw, det):
             x0 = np.concatenate((Q[i - 1], LG[i - 1], LC[i - 1], LN[i - 1])) if i else np.concatenate((S.q0, S.la_g0, S.la_c0, S.la_N0))
             success = None
         b0 = residual_blocks(S, t[i], *split_newton(S, x0))
+        if have_trace and i:
+            # the solver's criterion is relative to the residual of its starting point; the reference starting point of a load
+            # step is the previous returned equilibrium at the new load level. A predictor may start closer (smaller residual,
+            # tighter criterion) - a starting point that is FURTHER away must not widen what counts as an equilibrium
+            b0p = residual_blocks(S, t[i], Q[i - 1], LG[i - 1], LC[i - 1], LN[i - 1])
+            if any(np.any(np.abs(b0[nm_]) > np.abs(b0p[nm_]) * (1 + 1e-9) + 1e-300) for nm_ in BLOCKS if b0[nm_].size):
+                ctx.count("newton_start_further_from_equilibrium_than_previous_step")
+            b0 = {nm_: np.where(np.abs(b0[nm_]) <= np.abs(b0p[nm_]), b0[nm_], b0p[nm_]) if b0[nm_].size else b0[nm_] for nm_ in b0}
         obs.b0[i] = b0
         ok, worst = judge(b, b0, atol, rtol)
         count_blocks(ctx, b, LN[i])
@@ -515,6 +523,10 @@ def draw_cantilever(rng, form, demanding=False, riks=False):
     kF = float(loguniform(rng, 0.1, 100.0))
     P["Fi"] = (kF * loguniform(rng, 0.5, 2.0, size=3)).tolist()
     P["Ei"] = (kF / L**2 * loguniform(rng, 20.0, 1000.0, size=3)).tolist()
+    if rng.random() < 0.2:
+        # a very slender rod (wire): axial and shear stiffness many orders above the bending stiffness over L^2
+        P["Ei"] = (kF / L**2 * float(loguniform(rng, 1e5, 1e9)) * loguniform(rng, 0.5, 2.0, size=3)).tolist()
+        P["slender"] = True
     fscale = P["fscale"] = kF / L**2
     kmin = min(P["Fi"])
     nn1 = p * P["nel"]                      # number of nodal intervals
@@ -651,6 +663,7 @@ def cantilever_classes(ctx, P):
     ctx.cls("ref:" + P["ref"])
     ctx.cls("clamp:" + P["clamp"] + ("+moving" if P["clamp_motion"] else "") + ("+flipped" if P["flip"] else ""))
     ctx.cls("material:" + P["material"])
+    ctx.cls("slenderness:" + ("wire" if P.get("slender") else "ordinary"))
     for ld in P["loads"]:
         ctx.cls("load:%s:%s:%s" % (ld["kind"], "tip" if ld["xi"] == 1.0 else "interior", ld["law"]))
 
